@@ -1068,7 +1068,6 @@ pub fn open_point(_path: &std::path::Path) -> Option<io::Error> {
 
 pub fn probe_event(tag: String, status: u8, depth: usize, jobs: Vec<usize>, extra: Vec<String>) {
     let me = my_pid().unwrap_or(0);
-    yield_point(OP_PROBE, 0, 0);
     let mut g = lock();
     if let Some(w) = g.as_mut() {
         let d = w.stdin_pos;
